@@ -195,16 +195,18 @@ class MsgDirective(ExtractableI18NDirective):
 
         def _generate():
             msgbuf = MessageBuffer(self)
-            previous = next(stream)
+            previous = next(stream, None)
+            if previous is None:
+                return
             if previous[0] is START:
                 yield previous
             else:
                 msgbuf.append(*previous)
-            previous = next(stream)
+            previous = next(stream, None)
             for kind, data, pos in stream:
                 msgbuf.append(*previous)
                 previous = kind, data, pos
-            if previous[0] is not END:
+            if previous is not None and previous[0] is not END:
                 msgbuf.append(*previous)
                 previous = None
             for event in msgbuf.translate(gettext(msgbuf.format())):
